@@ -115,8 +115,73 @@ Definition spec_ola_param (layers : list kwl) (q : string) : option val :=
       else None
   end.
 
+(* after(inverse_transform(func(transform(before(blk), size)), size)), None stages skipped *)
 Definition compose_stages (size : nat) (tr itr bef aft : val) (func : F) (blk : list Qc) : list Qc :=
-  let st1 v x := match v with VFun f => f1 f x | _ => x end in
-  let st2 v x := match v with VFun f => f2 f x size | _ => x end in
-  st1 aft (st2 itr (f1 func (st2 tr (st1 bef x)))) where "x" := blk.
+  let st1 (v : val) (x : list Qc) := match v with VFun f => f1 f x | _ => x end in
+  let st2 (v : val) (x : list Qc) := match v with VFun f => f2 f x size | _ => x end in
+  st1 aft (st2 itr (f1 func (st2 tr (st1 bef blk)))).
+
+Definition is_stage (v : val) : bool := match v with VNone | VFun _ => true | _ => false end.
+
+(* the blocks the overlap-add (or the caller, with ola=None) receives *)
+Definition stft_blocks_spec (size hop : nat) (w : option (list Qc)) (tr itr bef aft : val) (func : F)
+           (sig : list Qc) : list (list Qc) :=
+  map (fun b => compose_stages size tr itr bef aft func
+                  (match w with None => b | Some wl => map2 Qcmult b wl end))
+      (blocks_spec size hop 0%Qc sig).
+
+Inductive promise :=
+| PSilent                                       (* the text promises nothing for this call *)
+| PBlocks (b : list (list Qc))                  (* ola=None: exactly these blocks *)
+| PUser (id : nat) (b : list (list Qc))         (* user ola [id] receives these blocks and exactly spec_ola_param *)
+| PSamples (out : list Qc).                     (* overlap_add.list: exactly these samples *)
+
+Definition onat (v : val) : option (option nat) :=
+  match v with VNone => Some None | VNat n => Some (Some n) | _ => None end.
+Definition obool (v : val) : option bool :=
+  match v with VBool b => Some b | _ => None end.
+
+Definition stft_promise (gc : Qc) (layers : list kwl) (func : F) (sig : list Qc) : promise :=
+  let P := spec_lookup layers in
+  match P "size"%string, match P "hop"%string with None => Some None | Some v => match v with VNat h => Some (Some h) | _ => None end end with
+  | Some (VNat size), Some hop =>
+    let h := match hop with Some h => h | None => size end in
+    if negb ((1 <=? h)%nat && (h <=? size)%nat) then PSilent
+    else if negb (forallb (fun k => is_own k || is_ola_key k) (all_keys layers)) then PSilent
+    else
+      match P "transform"%string, P "inverse_transform"%string, P "before"%string, P "after"%string, P "ola"%string with
+      | Some tr, Some itr, Some bef, Some aft, Some ola =>
+        if negb (is_stage tr && is_stage itr && is_stage bef && is_stage aft) then PSilent
+        else
+          match spec_wnd size (wnd_of_val wsem (match P "wnd"%string with Some v => v | None => VNone end)) with
+          | None => PSilent
+          | Some w =>
+            let bl := stft_blocks_spec size h w tr itr bef aft func sig in
+            match ola with
+            | VNone => if existsb is_ola_key (all_keys layers) then PSilent else PBlocks bl
+            | VOla (OlaUser id) => PUser id bl
+            | VOla OlaList =>
+                let Q q := spec_ola_param layers q in
+                let known := ["size"; "hop"; "wnd"; "normalize"]%string in
+                if negb (forallb (fun k => negb (is_ola_key k) || existsb (String.eqb (strip_ola k)) known) (all_keys layers))
+                then PSilent
+                else
+                  match match Q "size"%string with Some v => onat v | None => None end,
+                        match Q "hop"%string with Some v => onat v | None => None end,
+                        match Q "normalize"%string with Some v => obool v | None => Some true end with
+                  | Some osize, Some ohop, Some nrm =>
+                      match ola_promise osize ohop
+                              (wnd_of_val wsem (match Q "wnd"%string with Some v => v | None => VNone end)) nrm gc bl with
+                      | Some out => PSamples out
+                      | None => PSilent
+                      end
+                  | _, _, _ => PSilent
+                  end
+            | _ => PSilent
+            end
+          end
+      | _, _, _, _, _ => PSilent
+      end
+  | _, _ => PSilent
+  end.
 End StftSpec.
